@@ -211,6 +211,9 @@ func iterSum(k string) int {
 // Walker holds what is shared between all runs of one exploration.
 type Walker struct {
 	P *Prog
+	// constant tables: package-level variables initialised with a composite literal and never written
+	tableInits map[*types.Var]ast.Expr
+	tableInfos map[*types.Var]*packages.Package
 	// emitter[f] — f (transitively) reaches a sink.
 	emitter map[*types.Func]bool
 	// Domains: for a value decision key, the constants it was compared with
@@ -265,6 +268,7 @@ type Run struct {
 	fuel      int
 	structID  int
 	pkgStack  []*packages.Package
+	tables    map[*types.Var]Val
 	fnStack   []*types.Func
 	sigStack  []*types.Signature
 	litPos    []token.Pos // call sites of Printer closures being expanded
@@ -542,6 +546,10 @@ func (r *Run) Start(fn *types.Func) {
 				continue
 			}
 			if v, ok := r.startArgs[n.Name]; ok {
+				env.define(o, v)
+				continue
+			}
+			if v := r.bindStartArgByShape(decl, n.Name, o.Type()); v != nil {
 				env.define(o, v)
 				continue
 			}
@@ -886,6 +894,9 @@ func (r *Run) evalMulti(e ast.Expr, env *Env, n int) []Val {
 		if m, ok := r.eval(x.X, env).(*VStruct); ok && m.Name == "map" {
 			kv := r.eval(x.Index, env)
 			if v, ok := m.Fields[kv.key()]; ok {
+				return []Val{v, VBool{B: true}}
+			}
+			if v, found, sym := r.tableLookup(m, kv, x.Pos()); sym && found {
 				return []Val{v, VBool{B: true}}
 			}
 			var z Val = VNil{}
@@ -1384,6 +1395,9 @@ func (r *Run) evalRaw(e ast.Expr, env *Env) Val {
 		case *types.Func:
 			return &VFunc{Decl: o}
 		case *types.Var:
+			if v := r.pkgTable(o); v != nil {
+				return v
+			}
 			return VSym{Key: qualName(o), Typ: o.Type()}
 		}
 		return VSym{Key: x.Name}
@@ -1482,6 +1496,11 @@ func (r *Run) evalRaw(e ast.Expr, env *Env) Val {
 		if m, ok := base.(*VStruct); ok && m.Name == "map" {
 			if v, ok := m.Fields[idx.key()]; ok {
 				return v
+			}
+			if v, found, sym := r.tableLookup(m, idx, x.Pos()); sym {
+				if found {
+					return v
+				}
 			}
 			if tv, ok := info.Types[x]; ok && tv.Type != nil {
 				return r.zero(tv.Type)
@@ -1707,7 +1726,22 @@ func (r *Run) composite(x *ast.CompositeLit, env *Env) Val {
 		}
 		return st
 	case *types.Map:
-		if r.W.Concrete {
+		// in concrete mode every map is a value; otherwise only lookup tables (all keys constant)
+		table := len(x.Elts) > 0
+		if !r.W.Concrete {
+			for _, el := range x.Elts {
+				kv, ok := el.(*ast.KeyValueExpr)
+				if !ok {
+					table = false
+					break
+				}
+				if tv, ok := info.Types[kv.Key]; !ok || tv.Value == nil {
+					table = false
+					break
+				}
+			}
+		}
+		if r.W.Concrete || table {
 			r.structID++
 			m := &VStruct{Name: "map", Fields: map[string]Val{}, id: r.structID, Concrete: true}
 			for _, el := range x.Elts {
@@ -2595,4 +2629,217 @@ func sortedKeys[M ~map[string]V, V any](m M) []string {
 	}
 	sort.Strings(ks)
 	return ks
+}
+
+// tableLookup: m[k] for a symbolic key k in a map whose keys are constants — the key is taken to equal each
+// table key in turn (the same value decision a `switch k { case … }` uses), or none of them.
+// sym reports that k was symbolic (otherwise the plain lookup already answered).
+func (r *Run) tableLookup(m *VStruct, k Val, pos token.Pos) (v Val, found bool, sym bool) {
+	switch k.(type) {
+	case VSym:
+	default:
+		if s, ok := k.(VStr); !ok {
+			return nil, false, false
+		} else if _, isConst := s.isConst(); isConst {
+			return nil, false, false
+		}
+	}
+	for _, key := range m.Keys {
+		repr := ""
+		switch kv := key.(type) {
+		case VStr:
+			c, ok := kv.isConst()
+			if !ok {
+				continue
+			}
+			repr = strconv.Quote(c)
+		case VInt:
+			repr = kv.Label
+			if repr == "" {
+				repr = strconv.FormatInt(kv.N, 10)
+			}
+		default:
+			continue
+		}
+		if r.valueIs(k.key(), repr, pos) {
+			return m.Fields[key.key()], true, true
+		}
+	}
+	return nil, false, true
+}
+
+// pkgTable: a package-level variable of a repository package that is initialised with a composite literal and
+// never assigned anywhere else is a constant table; its initialiser is evaluated (once per run).
+func (r *Run) pkgTable(o *types.Var) Val {
+	if o.Pkg() == nil || o.Parent() != o.Pkg().Scope() || !strings.HasPrefix(o.Pkg().Path(), modPath+"/") {
+		return nil
+	}
+	if r.tables == nil {
+		r.tables = map[*types.Var]Val{}
+	}
+	if v, ok := r.tables[o]; ok {
+		return v
+	}
+	r.tables[o] = nil
+	init, ppk := r.W.tableInit(o)
+	if init == nil {
+		return nil
+	}
+	r.pkgStack = append(r.pkgStack, ppk)
+	v := r.eval(init, newEnv(nil))
+	r.pkgStack = r.pkgStack[:len(r.pkgStack)-1]
+	switch vv := v.(type) {
+	case *VStruct:
+		if vv.Name != "map" {
+			v = nil
+		}
+	case VList:
+		if vv.Elems == nil {
+			v = nil
+		}
+	default:
+		v = nil
+	}
+	r.tables[o] = v
+	return v
+}
+
+// tableInit: the composite-literal initialiser of a package-level variable that no statement of its package
+// assigns to, stores through or takes the address of.
+func (w *Walker) tableInit(o *types.Var) (ast.Expr, *packages.Package) {
+	if w.tableInits == nil {
+		w.tableInits = map[*types.Var]ast.Expr{}
+		w.tableInfos = map[*types.Var]*packages.Package{}
+		for _, pk := range w.P.Pkgs {
+			written := map[types.Object]bool{}
+			for _, f := range pk.Syntax {
+				ast.Inspect(f, func(n ast.Node) bool {
+					switch x := n.(type) {
+					case *ast.AssignStmt:
+						for _, l := range x.Lhs {
+							root := ast.Unparen(l)
+							for {
+								switch y := root.(type) {
+								case *ast.IndexExpr:
+									root = ast.Unparen(y.X)
+									continue
+								case *ast.SelectorExpr:
+									root = ast.Unparen(y.X)
+									continue
+								}
+								break
+							}
+							if id, ok := root.(*ast.Ident); ok {
+								written[pk.TypesInfo.ObjectOf(id)] = true
+							}
+						}
+					case *ast.UnaryExpr:
+						if x.Op == token.AND {
+							if id, ok := ast.Unparen(x.X).(*ast.Ident); ok {
+								written[pk.TypesInfo.ObjectOf(id)] = true
+							}
+						}
+					case *ast.IncDecStmt:
+						if id, ok := ast.Unparen(x.X).(*ast.Ident); ok {
+							written[pk.TypesInfo.ObjectOf(id)] = true
+						}
+					}
+					return true
+				})
+			}
+			for _, f := range pk.Syntax {
+				for _, d := range f.Decls {
+					gd, ok := d.(*ast.GenDecl)
+					if !ok || gd.Tok != token.VAR {
+						continue
+					}
+					for _, sp := range gd.Specs {
+						vs := sp.(*ast.ValueSpec)
+						if len(vs.Values) != len(vs.Names) {
+							continue
+						}
+						for i, nm := range vs.Names {
+							obj, _ := pk.TypesInfo.Defs[nm].(*types.Var)
+							if obj == nil || written[obj] {
+								continue
+							}
+							if _, isLit := ast.Unparen(vs.Values[i]).(*ast.CompositeLit); isLit {
+								w.tableInits[obj] = vs.Values[i]
+								w.tableInfos[obj] = pk
+							}
+						}
+					}
+				}
+			}
+		}
+	}
+	return w.tableInits[o], w.tableInfos[o]
+}
+
+// bindStartArgByShape: scenario arguments are given by parameter name. When a parameter of that name does not
+// exist (it was renamed, or several parameters were folded into one struct), the argument is found by shape:
+//   - a parameter whose type is a struct (or pointer to one) declared in the repository, some of whose field names
+//     are argument names, is bound to a struct value built from those arguments;
+//   - a parameter of a protogen descriptor type is bound to the one unused argument that is a descriptor value of
+//     that type; a string parameter to the one unused constant string.
+func (r *Run) bindStartArgByShape(decl *ast.FuncDecl, pname string, t types.Type) Val {
+	if len(r.startArgs) == 0 {
+		return nil
+	}
+	used := map[string]bool{}
+	for _, f := range decl.Type.Params.List {
+		for _, n := range f.Names {
+			if _, ok := r.startArgs[n.Name]; ok {
+				used[n.Name] = true
+			}
+		}
+	}
+	bt := t
+	if pt, ok := bt.(*types.Pointer); ok {
+		bt = pt.Elem()
+	}
+	if named, ok := bt.(*types.Named); ok {
+		if st, ok := named.Underlying().(*types.Struct); ok && named.Obj().Pkg() != nil && strings.HasPrefix(named.Obj().Pkg().Path(), modPath) {
+			fields := map[string]Val{}
+			for i := 0; i < st.NumFields(); i++ {
+				if v, ok := r.startArgs[st.Field(i).Name()]; ok && !used[st.Field(i).Name()] {
+					fields[st.Field(i).Name()] = v
+				}
+			}
+			if len(fields) > 0 {
+				r.structID++
+				return &VStruct{Name: named.Obj().Name(), Fields: fields, id: r.structID, Concrete: true}
+			}
+		}
+		// descriptor types: the unused argument of that descriptor kind
+		var cand []Val
+		for k, v := range r.startArgs {
+			if used[k] {
+				continue
+			}
+			if sv, ok := v.(*VStruct); ok && sv.Name == named.Obj().Name() {
+				cand = append(cand, v)
+			}
+		}
+		if len(cand) == 1 {
+			return cand[0]
+		}
+	}
+	if b, ok := bt.Underlying().(*types.Basic); ok && b.Info()&types.IsString != 0 {
+		var cand []Val
+		for k, v := range r.startArgs {
+			if used[k] {
+				continue
+			}
+			if sv, ok := v.(VStr); ok {
+				if _, isConst := sv.isConst(); isConst {
+					cand = append(cand, v)
+				}
+			}
+		}
+		if len(cand) == 1 {
+			return cand[0]
+		}
+	}
+	return nil
 }
